@@ -466,3 +466,20 @@ Proof.
     + right. apply IH. discriminate.
     + now left.
 Qed.
+
+(* histories of authentic and forged datagrams through the receive path *)
+Theorem run_through_spec_inv l : forall s A, Inv s A -> Forall (fun x => x < lim) A ->
+  Forall (fun p => fst p < lim) l -> run_through s l = spec_through A l.
+Proof.
+  induction l as [|[c [|]] r IH]; intros s A HI HA Hl; simpl; [reflexivity| |].
+  - inversion Hl as [|? ? Hc Hr]; subst. simpl in Hc.
+    unfold accept. rewrite (check_fresh_inv _ _ _ HI HA Hc).
+    destruct (fresh_b A c); f_equal.
+    + apply IH; [now apply mark_inv|now constructor|exact Hr].
+    + now apply IH.
+  - inversion Hl as [|? ? Hc Hr]; subst. f_equal. now apply IH.
+Qed.
+
+Theorem run_through_spec l : Forall (fun p => fst p < lim) l ->
+  run_through win_init l = spec_through [] l.
+Proof. intros H. apply run_through_spec_inv; [exact inv_init|constructor|exact H]. Qed.
